@@ -199,13 +199,13 @@ func (w *World) Apply(op Op, token string) bool {
 	if !w.apply(op, token) {
 		return false
 	}
-	// An export mark on a name the package does not define but inherits (or shares with a used package
-	// that exports it without defining it): in Common Lisp the mark then belongs to the inherited symbol
-	// or there is a name conflict; whether the package itself still exports the name is left open.
+	// An export mark on a name the package does not define but inherits: in Common Lisp the mark then
+	// belongs to the inherited symbol or there is a name conflict; whether the package itself still
+	// exports the name is left open.
 	for p, pk := range w.P {
 		for n, e := range pk.Exp {
 			if e == Yes && pk.Def[n] == nil {
-				if v := w.View(p, n); len(v.Direct)+len(v.Trans) > 0 || v.Pending {
+				if v := w.View(p, n); len(v.Direct)+len(v.Trans) > 0 {
 					pk.Exp[n] = Unknown
 				}
 			}
@@ -263,7 +263,9 @@ func (w *World) apply(op Op, token string) bool {
 		return false
 	}
 	v := w.View(op.A, op.N)
-	nothing := v.Own == nil && len(v.Direct) == 0 && len(v.Trans) == 0 && !v.Pending
+	// A name a used package exports without having bound it is only a placeholder of that package (it
+	// has no definition there): it resolves to nothing here, so defining it creates the current package's own.
+	nothing := v.Own == nil && len(v.Direct) == 0 && len(v.Trans) == 0
 	fresh := func() bool { // create an own definition
 		if pk.Exp[op.N] == Unknown {
 			return false
@@ -283,7 +285,7 @@ func (w *World) apply(op Op, token string) bool {
 			if !fresh() {
 				return false
 			}
-		case !v.Pending && len(v.Direct) == 1 && len(v.Trans) == 0:
+		case len(v.Direct) == 1 && len(v.Trans) == 0:
 			v.Direct[0].Val = token // the inherited variable is the owner's cell
 		default:
 			return false
@@ -299,7 +301,7 @@ func (w *World) apply(op Op, token string) bool {
 			if !fresh() {
 				return false
 			}
-		case !v.Pending && len(v.Direct) == 1 && len(v.Trans) == 0:
+		case len(v.Direct) == 1 && len(v.Trans) == 0:
 			// bound through inheritance: no effect
 		default:
 			return false
